@@ -141,6 +141,12 @@ theorem allocKeys_allocAdd_of_not_mem {a : Alloc} {h : Option Cand} (b : Ballot)
     · rename_i heq; exact absurd heq.symm hm.1
     · simp only [allocKeys, List.map_cons, List.cons_append]; congr 1; exact ih hm.2
 
+theorem mem_allocKeys_allocAdd {a : Alloc} {h' : Option Cand} (h : Option Cand) (b : Ballot) (w : Rat)
+    (hm : h' ∈ allocKeys a) : h' ∈ allocKeys (allocAdd a h b w) := by
+  by_cases hh : h ∈ allocKeys a
+  · rw [allocKeys_allocAdd_of_mem b w hh]; exact hm
+  · rw [allocKeys_allocAdd_of_not_mem b w hh]; exact List.mem_append_left _ hm
+
 theorem continuing_eq (a : Alloc) : continuing a = (allocKeys a).filterMap id := by
   simp [continuing, allocKeys, List.filterMap_map]
 
@@ -353,6 +359,12 @@ theorem continuing_foldAdd {a : Alloc} (b : Ballot) {r : List (Cand × Rat)} (hr
     have h1 := continuing_allocAdd_some b x.2 (hr x List.mem_cons_self)
     rw [ih (by intro y hy; rw [h1]; exact hr y (List.mem_cons_of_mem _ hy)), h1]
 
+theorem mem_allocKeys_foldAdd {a : Alloc} {h' : Option Cand} (b : Ballot) (r : List (Cand × Rat))
+    (hm : h' ∈ allocKeys a) : h' ∈ allocKeys (foldAdd a b r) := by
+  induction r generalizing a with
+  | nil => exact hm
+  | cons x xs ih => rw [foldAdd_cons]; exact ih (mem_allocKeys_allocAdd _ _ _ hm)
+
 theorem KeysNodup.foldAdd {a : Alloc} (hk : KeysNodup a) (b : Ballot) (r : List (Cand × Rat)) :
     KeysNodup (foldAdd a b r) := by
   induction r generalizing a with
@@ -391,6 +403,7 @@ structure MoveSpec (cont : List Cand) (frm : Option Cand) (pile : Pile) (a a' : 
   cont_eq : continuing a' = continuing a
   keys : KeysNodup a → KeysNodup a'
   nonneg : NonNeg a → (∀ x ∈ pile, 0 ≤ x.2) → NonNeg a'
+  keep : ∀ h', h' ∈ allocKeys a → h' ∈ allocKeys a'
   entry : ∀ hp ∈ a', ∀ x ∈ hp.2, (∃ hp' ∈ a, hp'.1 = hp.1 ∧ x ∈ hp'.2) ∨
     ∃ bw ∈ pile, x.1 = bw.1 ∧ Lands cont frm bw.1 hp.1
 
@@ -403,7 +416,7 @@ theorem moveBallot_spec {E : Engine} (hE : EngineOK E) {cont : List Cand} {frm :
   · rename_i hnil
     injection h with h; injection h with h1 h2; subst h1
     refine ⟨by simp [held_allocAdd], continuing_allocAdd_none _ _ _, fun hk => hk.allocAdd _ _ _,
-      fun hn hw => hn.allocAdd _ _ (hw (b, w) (by simp)), ?_⟩
+      fun hn hw => hn.allocAdd _ _ (hw (b, w) (by simp)), fun _ hm => mem_allocKeys_allocAdd _ _ _ hm, ?_⟩
     intro hp hhp x hx
     rcases allocAdd_entry hhp hx with ⟨h3, h4⟩ | h5
     · right; exact ⟨(b, w), by simp, h4, Or.inl ⟨h3, hnil⟩⟩
@@ -412,7 +425,7 @@ theorem moveBallot_spec {E : Engine} (hE : EngineOK E) {cont : List Cand} {frm :
     injection h with h; injection h with h1 h2; subst h1
     have ht : t ∈ continuing a := hc t (hsub t (by rw [hone]; simp))
     refine ⟨by simp [held_allocAdd], continuing_allocAdd_some _ _ ht, fun hk => hk.allocAdd _ _ _,
-      fun hn hw => hn.allocAdd _ _ (hw (b, w) (by simp)), ?_⟩
+      fun hn hw => hn.allocAdd _ _ (hw (b, w) (by simp)), fun _ hm => mem_allocKeys_allocAdd _ _ _ hm, ?_⟩
     intro hp hhp x hx
     rcases allocAdd_entry hhp hx with ⟨h3, h4⟩ | h5
     · right; exact ⟨(b, w), by simp, h4, Or.inr ⟨t, h3, by rw [hone]; simp⟩⟩
@@ -430,7 +443,8 @@ theorem moveBallot_spec {E : Engine} (hE : EngineOK E) {cont : List Cand} {frm :
       have hkeys := hE.split_keys hs
       have hrc : ∀ x ∈ r, x.1 ∈ continuing a := fun x hx => hc _ (hsub _ (hkeys x hx))
       refine ⟨?_, continuing_foldAdd b hrc, fun hk => hk.foldAdd _ _,
-        fun hn hw => hn.foldAdd _ (hE.split_nonneg hs (hw (b, w) (by simp))), ?_⟩
+        fun hn hw => hn.foldAdd _ (hE.split_nonneg hs (hw (b, w) (by simp))),
+        fun _ hm => mem_allocKeys_foldAdd _ _ hm, ?_⟩
       · rw [held_foldAdd, hE.split_sum hs (by intro he; exact hn1 he)]; simp
       · intro hp hhp x hx
         rcases foldAdd_entry hhp hx with ⟨h3, t, ht, h4⟩ | h5
@@ -444,7 +458,7 @@ theorem movePile_spec {E : Engine} (hE : EngineOK E) {cont : List Cand} {frm : O
   | nil =>
     simp only [movePile] at h
     injection h with h; injection h with h1 h2; subst h1
-    exact ⟨by simp, rfl, id, fun hn _ => hn, fun hp hhp x hx => Or.inl ⟨hp, hhp, rfl, hx⟩⟩
+    exact ⟨by simp, rfl, id, fun hn _ => hn, fun _ hm => hm, fun hp hhp x hx => Or.inl ⟨hp, hhp, rfl, hx⟩⟩
   | cons bw rest ih =>
     obtain ⟨b, w⟩ := bw
     simp only [movePile] at h
@@ -456,7 +470,8 @@ theorem movePile_spec {E : Engine} (hE : EngineOK E) {cont : List Cand} {frm : O
       simp only [bind, Except.bind] at h
       have s1 := moveBallot_spec hE hc hm
       have s2 := ih (a := a1) (by rw [s1.cont_eq]; exact hc) h
-      refine ⟨?_, by rw [s2.cont_eq, s1.cont_eq], fun hk => s2.keys (s1.keys hk), ?_, ?_⟩
+      refine ⟨?_, by rw [s2.cont_eq, s1.cont_eq], fun hk => s2.keys (s1.keys hk), ?_,
+        fun h' hm => s2.keep h' (s1.keep h' hm), ?_⟩
       · rw [s2.held_eq, s1.held_eq]; simp; ring
       · intro hn hw
         exact s2.nonneg (s1.nonneg hn (by intro x hx; simp at hx; subst hx; exact hw (b, w) List.mem_cons_self))
@@ -537,6 +552,12 @@ theorem continuing_erase (a : Alloc) (c : Cand) :
         rw [ih]
         simp [hd]
 
+theorem mem_allocKeys_erase_none {a : Alloc} (hm : none ∈ allocKeys a) (c : Cand) :
+    none ∈ allocKeys (allocErase a (some c)) := by
+  unfold allocKeys allocErase at *
+  obtain ⟨hp, hhp, he⟩ := List.mem_map.mp hm
+  exact List.mem_map.mpr ⟨hp, List.mem_filter.mpr ⟨hhp, by simp [he]⟩, he⟩
+
 theorem KeysNodup.erase {a : Alloc} (hk : KeysNodup a) (h : Option Cand) : KeysNodup (allocErase a h) := by
   unfold KeysNodup allocKeys allocErase at *
   exact List.Nodup.sublist (List.Sublist.map _ List.filter_sublist) hk
@@ -562,6 +583,7 @@ structure TransferSpec (cont rs : List Cand) (a a' : Alloc) : Prop where
   cont_eq : continuing a' = (continuing a).filter (fun x => decide (x ∉ rs))
   keys : KeysNodup a → KeysNodup a'
   nonneg : NonNeg a → NonNeg a'
+  keep_none : none ∈ allocKeys a → none ∈ allocKeys a'
   entry : ∀ hp ∈ a', ∀ x ∈ hp.2, Descends cont rs a hp.1 x.1
 
 theorem lands_target {cont : List Cand} {frm : Option Cand} {b : Ballot} {h : Option Cand}
@@ -578,7 +600,7 @@ theorem transferGo_spec {E : Engine} (hE : EngineOK E) {cont : List Cand} {rs : 
   | nil =>
     simp only [transferGo] at h
     injection h with h; injection h with h1 h2; subst h1
-    refine ⟨fun _ => rfl, by simp, id, id, ?_⟩
+    refine ⟨fun _ => rfl, by simp, id, id, id, ?_⟩
     intro hp hhp x hx
     exact ⟨hp, hhp, ⟨x.2, hx⟩, Or.inl ⟨rfl, by simp⟩⟩
   | cons c rest ih =>
@@ -598,7 +620,8 @@ theorem transferGo_spec {E : Engine} (hE : EngineOK E) {cont : List Cand} {rs : 
         simpa using this
       have s1 := movePile_spec hE hc0 hm
       have s2 := ih (a := a1) (by rw [s1.cont_eq]; exact hc0) (fun d hd => hr d (List.mem_cons_of_mem _ hd)) h
-      refine ⟨?_, ?_, fun hk => s2.keys (s1.keys (hk.erase _)), fun hn => s2.nonneg (s1.nonneg (hn.erase _) (hn.pile _)), ?_⟩
+      refine ⟨?_, ?_, fun hk => s2.keys (s1.keys (hk.erase _)), fun hn => s2.nonneg (s1.nonneg (hn.erase _) (hn.pile _)),
+        fun hm => s2.keep_none (s1.keep none (mem_allocKeys_erase_none hm c)), ?_⟩
       · intro hk
         rw [s2.held_eq (s1.keys (hk.erase _)), s1.held_eq, held_erase hk]
       · rw [s2.cont_eq, s1.cont_eq, continuing_erase, List.filter_filter]
